@@ -17,7 +17,7 @@ each attempt (`Stack`). `run` produces the caller-visible outcome and, per attem
 invocation log.
 
 `Fixes` selects the code variant: the model FOLLOWS THE REPAIRED CODE (`Fixes.all`; patches
-fixes/C10-3 (keepErr), fixes/C10-5 (nilGuard), fixes/C18-1 (digestRebind)); `Fixes.none` is the
+/repo fd618a6 (keepErr), /repo bf16ffe (nilGuard), fixes/C18-1 (digestRebind)); `Fixes.none` is the
 code as found, kept to state the counter-examples and to let the lane recognise the known
 pre-patch behaviour exactly.
 -/
@@ -334,7 +334,7 @@ def reqRespLoop (fx : Fixes) (s : Stack) (a : Nat) : Nat → List RAct → Optio
       let t := reqRespLoop fx s a (i + 1) rest resp1 (if fx.keepErr then err else none)
       { t with evs := .rResp i :: evs ++ t.evs }
 
-/-- The nil guard of fixes/C10-5 right after the round trip. -/
+/-- The nil guard (/repo bf16ffe) right after the round trip. -/
 def nilGuard (resp : Option Resp) (err : Option Err) : Option Resp :=
   let r := match resp with
     | some r => r
